@@ -167,3 +167,117 @@ def recursion_summary_hook(F, short, max_depth=1):
             return TupleV(cells)
         return absint.unknown(it, out_ty, "rec%d" % it.rec_n)
     return hook
+
+
+# ---------------------------------------------------------------- slot graph of one path
+class SlotGraph:
+    """links / free list / fresh slots of one path, replayed from its events"""
+
+    def __init__(self, p, free_suffix=".free"):
+        self.initial = {}      # (table, parent, side) -> child     (as first observed)
+        self.edges = {}        # current
+        self.freed = []        # items pushed on the free list, in order
+        self.free_states = []
+        self.fresh = []        # keys obtained from free.pop / arena growth
+        self.grown = []        # keys obtained by growing the arena
+        self.popped_none = False
+        self.worklists = {}    # local vec name -> items currently queued
+        self.arena_cleared = False
+        self.free_cleared = False
+        self.order = []
+        for e in p.events:
+            k = e.kind
+            if k == "link_known":
+                key = (e["table"], e["node"], e["side"])
+                self.initial.setdefault(key, e["child"])
+                self.edges[key] = e["child"]
+            elif k == "link_write":
+                key = (e["table"], e["node"], e["side"])
+                if e["new"] is None:
+                    self.edges.pop(key, None)
+                else:
+                    self.edges[key] = e["new"]
+            elif k == "vec_push":
+                if e["vec"].endswith(free_suffix):
+                    self.freed.append(e["item"])
+                    self.free_states.append(e["state"])
+                    self.order.append(("free.push", e["item"]))
+                else:
+                    self.worklists.setdefault(e["vec"], []).append(e["item"])
+            elif k == "vec_pop":
+                if e["vec"].endswith(free_suffix):
+                    if e["item"] is None:
+                        self.popped_none = True
+                        self.order.append(("free.pop", None))
+                    else:
+                        self.fresh.append(e["item"])
+                        self.order.append(("free.pop", e["item"]))
+                else:
+                    wl = self.worklists.get(e["vec"])
+                    if wl and e["item"] in wl:
+                        wl.remove(e["item"])
+            elif k == "arena_push":
+                self.fresh.append(e["key"])
+                self.grown.append(e["key"])
+                self.order.append(("arena.push", e["key"]))
+            elif k == "arena_clear":
+                self.arena_cleared = True
+                self.edges = {}
+                self.order.append(("arena.clear", None))
+            elif k == "vec_clear" and e["vec"].endswith(free_suffix):
+                self.free_cleared = True
+                self.order.append(("free.clear", None))
+
+    def queued(self):
+        out = set()
+        for items in self.worklists.values():
+            out |= set(items)
+        return out
+
+    def incoming_live(self, x):
+        return [(t, par, side) for (t, par, side), c in self.edges.items() if c == x and par not in self.freed]
+
+    def slots(self):
+        s = set(self.freed) | set(self.fresh)
+        for (t, par, side), c in list(self.initial.items()) + list(self.edges.items()):
+            s.add(c)
+        return s
+
+    def problems(self, entry_returns_fresh=False):
+        """partition violations at the end of the path: list of (kind, slot, text)"""
+        out = []
+        if self.arena_cleared:
+            return out
+        seen = set()
+        for x in self.freed:
+            if x in seen:
+                out.append(("double-free", x, "slot %s is pushed on the free list twice" % x))
+            seen.add(x)
+        initially_linked = set(self.initial.values())
+        queued = self.queued()
+        for x in sorted(self.slots()):
+            inc = self.incoming_live(x)
+            if x in self.freed:
+                if inc:
+                    out.append(("free-linked", x, "slot %s is pushed on the free list but still linked from %s" % (x, inc)))
+                # what hangs below a freed slot must be re-linked, queued or freed
+                for (t, par, side), c in self.edges.items():
+                    if par == x and c not in self.freed and c not in queued and not self.incoming_live(c):
+                        out.append(("orphan", c, "slot %s hangs below freed slot %s and is neither re-linked nor freed" % (c, x)))
+                continue
+            if x in self.fresh:
+                if len(inc) != 1 and not entry_returns_fresh:
+                    out.append(("fresh-unlinked", x, "new slot %s ends with %d links" % (x, len(inc))))
+                continue
+            if x in queued:
+                continue
+            if len(inc) == 0 and x in initially_linked:
+                out.append(("leak", x, "slot %s was unlinked and is neither re-linked nor pushed on the free list" % x))
+            elif len(inc) >= 2:
+                out.append(("double-link", x, "slot %s ends linked from %s" % (x, inc)))
+        if "0" in self.freed:
+            out.append(("root-freed", "0", "the root slot is pushed on the free list"))
+        for (t, par, side), c in self.edges.items():
+            if c == "0":
+                out.append(("root-linked", "0", "the root slot becomes a child of %s" % par))
+        return out
